@@ -539,7 +539,7 @@ Section Dec.
     (fix loop (n: nat) (acc: list (ty * val)) : proc dval :=
        let finish :=
          match acc with
-         | [] => Ret DNone
+         | [] => Ret (DV (schemaless_ty (if is_set then TSetOf TNull else TSeqOf TNull) ts) (VList []))
          | (T0, _) :: _ =>
              let same := forallb (fun tv => tagset_eqb (tagset_of' (fst tv)) (tagset_of' T0)) acc in
              let proto := if same then (if is_set then TSetOf T0 else TSeqOf T0)
